@@ -137,7 +137,7 @@ struct Checker {
         return std::string("key=") + kname() + " eps=" + std::to_string(eps) + " mode=" + mode + " chunks=" + std::to_string(verif::chunks) + " env=" + std::to_string(verif::env) + " " + desc;
     }
     static const char *kname() {
-        static const char *names[] = {"u8", "i8", "u16", "i16", "u32", "i32", "u64", "i64", "f32", "f64"};
+        static const char *names[] = {"u8", "i8", "u16", "i16", "u32", "i32", "u64", "i64", "f32", "f64", "ll", "ull", "?"};
         return names[ks::key_class<K>()];
     }
 
@@ -441,6 +441,8 @@ void dispatch(Run &run, Cn &cn, int prop, const Task &t) {
         case 7: run_task<int64_t>(run, cn, prop, t); break;
         case 8: run_task<float>(run, cn, prop, t); break;
         case 9: run_task<double>(run, cn, prop, t); break;
+        case 10: run_task<long long>(run, cn, prop, t); break;
+        case 11: run_task<unsigned long long>(run, cn, prop, t); break;
     }
 }
 
@@ -455,14 +457,15 @@ int main(int argc, char **argv) {
     if (!opt.replay.empty()) {
         auto m = mc::parse_case(mc::json_field(mc::read_file(opt.replay), "case"));
         run.opt.write_evidence = false; run.worker_id = 0;
-        static const char *names[] = {"u8", "i8", "u16", "i16", "u32", "i32", "u64", "i64", "f32", "f64"};
+        static const char *names[] = {"u8", "i8", "u16", "i16", "u32", "i32", "u64", "i64", "f32", "f64", "ll", "ull"};
         Task t;
-        for (int i = 0; i < 10; ++i) if (m["key"] == names[i]) t.key = i;
+        for (int i = 0; i < 12; ++i) if (m["key"] == names[i]) t.key = i;
         switch (t.key) {
             case 0: Checker<uint8_t>{run, cn, prop}.replay(m); break; case 3: Checker<int16_t>{run, cn, prop}.replay(m); break;
             case 4: Checker<uint32_t>{run, cn, prop}.replay(m); break; case 5: Checker<int32_t>{run, cn, prop}.replay(m); break; case 6: Checker<uint64_t>{run, cn, prop}.replay(m); break;
             case 7: Checker<int64_t>{run, cn, prop}.replay(m); break; case 8: Checker<float>{run, cn, prop}.replay(m); break;
             case 9: Checker<double>{run, cn, prop}.replay(m); break;
+            case 10: Checker<long long>{run, cn, prop}.replay(m); break; case 11: Checker<unsigned long long>{run, cn, prop}.replay(m); break;
         }
         auto v = run.sh->violations.load();
         printf("replay verdict: %s\n", v ? "VIOLATION reproduced" : "no violation");
@@ -471,13 +474,13 @@ int main(int argc, char **argv) {
 
     int N = thorough ? 10 : 8;
     if (opt.extra.count("N")) N = atoi(opt.extra["N"].c_str());
-    std::vector<int> keys = prop == 3 ? std::vector<int>{4, 5, 6, 7, 8, 9, 0, 3} : std::vector<int>{4, 5, 6, 7, 0, 3};
+    std::vector<int> keys = prop == 3 ? std::vector<int>{4, 5, 6, 7, 8, 9, 0, 3, 10, 11} : std::vector<int>{4, 5, 6, 7, 0, 3, 10, 11};   // 10/11: long long / unsigned long long
     std::vector<size_t> epss = {0, 1, 2, 3};
     std::vector<Task> tasks;
     for (int len = 1; len <= N; ++len)
         for (int k : keys)
             for (size_t e : epss) {
-                int np = k >= 8 ? 3 : 4;
+                int np = (k == 8 || k == 9) ? 3 : 4;
                 if ((k == 0 || k == 3) && e == 3) continue;
                 for (int p = 0; p < np; ++p) for (int f = 0; f < 10; ++f) { Task t; t.key = k; t.kind = 0; t.eps = e; t.palette = p; t.len = len; t.first = f; tasks.push_back(t); }
             }
@@ -536,7 +539,7 @@ int main(int argc, char **argv) {
     mc::Run::EvidenceExtra ev;
     ev.states_counter = "arrays_segmented"; ev.transitions_counter = prop == 3 ? "point_vs_line_checks" : "maximality_checks_against_exact_oracle";
     ev.nontrivial_counter = "arrays_with_2plus_distinct_keys";
-    ev.rule = std::string("every non-decreasing key sequence of length 1..") + std::to_string(N) + " over each 10-value palette, key types u32/i32/u64/i64/u8/i16" + (prop == 3 ? "/float/double" : "") +
+    ev.rule = std::string("every non-decreasing key sequence of length 1..") + std::to_string(N) + " over each 10-value palette, key types u32/i32/u64/i64/u8/i16/long long/unsigned long long" + (prop == 3 ? "/float/double" : "") +
               ", epsilon 0..3, fed to make_segmentation; seam-window family (n=2^15(+delta), all 4096 six-letter words over {dup,+1,+2,+65536} at every chunk seam) through make_segmentation_par with the chunk count answered by the harness (also as a history 8,1,2,20,3,8,1 of thread counts inside one process; processors = threads, more threads than processors, fewer threads than processors: c = min of the two); block grammar (1 block x rep, 2 blocks) for epsilon in {1,8,64" + (thorough ? ",1024" : "") + "}. " +
               (prop == 3 ? "Each point recorded by hook H1 is evaluated against the line reported for its segment (exact 128-bit rational arithmetic for integer keys, long double + stated tolerance for floating keys). "
                          : "Each builder call's partition is compared with the greedy partition computed by an exact rational stabbing-line oracle (pairwise slope bounds), plus the optimum count, the 2*epsilon spacing of segment starts, and every upper-level call inside PGMIndex builds. ") +
